@@ -71,6 +71,154 @@ type Witness struct {
 type pstate struct {
 	b    *ssa.BasicBlock
 	held bool
+	pred int // index of the predecessor edge taken into b when b branches on one of its own phis, else -1
+}
+
+// phiBranchBlock: b ends in an If whose condition is decided by a phi of b itself (a nil
+// test of a merged error, a merged boolean): which way it goes then depends on the edge
+// through which b was entered.
+var phiBranchMemo = map[*ssa.BasicBlock]int8{}
+
+func phiCondOf(b *ssa.BasicBlock) (phi *ssa.Phi, kind int) {
+	if len(b.Instrs) == 0 {
+		return nil, 0
+	}
+	iff, ok := b.Instrs[len(b.Instrs)-1].(*ssa.If)
+	if !ok {
+		return nil, 0
+	}
+	own := func(v ssa.Value) *ssa.Phi {
+		for i := 0; i < 4; i++ {
+			switch x := v.(type) {
+			case *ssa.Phi:
+				if x.Block() == b {
+					return x
+				}
+				return nil
+			case *ssa.ChangeInterface:
+				v = x.X
+			case *ssa.ChangeType:
+				v = x.X
+			default:
+				return nil
+			}
+		}
+		return nil
+	}
+	switch c := iff.Cond.(type) {
+	case *ssa.Phi:
+		if c.Block() == b {
+			return c, 1 // boolean phi, true branch when the value is true
+		}
+	case *ssa.UnOp:
+		if c.Op == token.NOT {
+			if p := own(c.X); p != nil {
+				return p, 2
+			}
+		}
+	case *ssa.BinOp:
+		if c.Op == token.NEQ || c.Op == token.EQL {
+			var p *ssa.Phi
+			if isNilConst(c.Y) {
+				p = own(c.X)
+			} else if isNilConst(c.X) {
+				p = own(c.Y)
+			}
+			if p != nil {
+				if c.Op == token.NEQ {
+					return p, 3 // true branch when non-nil
+				}
+				return p, 4 // true branch when nil
+			}
+		}
+	}
+	return nil, 0
+}
+
+// infeasibleSucc: entering b through predecessor edge pred, successor k cannot be taken.
+func infeasibleSucc(b *ssa.BasicBlock, pred, k int) bool {
+	if pred < 0 {
+		return false
+	}
+	phi, kind := phiCondOf(b)
+	if phi == nil || pred >= len(phi.Edges) || len(b.Succs) != 2 {
+		return false
+	}
+	v := phi.Edges[pred]
+	var truth int // 1 condition true, -1 false, 0 unknown
+	switch kind {
+	case 1, 2:
+		if c, ok := v.(*ssa.Const); ok && c.Value != nil {
+			if constString(c) == "true" {
+				truth = 1
+			} else if constString(c) == "false" {
+				truth = -1
+			}
+		}
+		if kind == 2 {
+			truth = -truth
+		}
+	case 3, 4:
+		if isNilConst(v) {
+			truth = -1
+		} else if provablyNonNilError(v) {
+			truth = 1
+		} else if pred < len(b.Preds) {
+			truth = nilnessIn(v, b.Preds[pred])
+		}
+		if kind == 4 {
+			truth = -truth
+		}
+	}
+	if truth == 1 && k == 1 {
+		return true
+	}
+	if truth == -1 && k == 0 {
+		return true
+	}
+	return false
+}
+
+// nilnessIn: value v is known non-nil (1) / nil (-1) throughout block blk because blk is only
+// reached through a branch on a nil test of v (single-predecessor chain, at most 8 blocks up).
+func nilnessIn(v ssa.Value, blk *ssa.BasicBlock) int {
+	fn := blk.Parent()
+	isNil, nonNil := nilTestEdges(fn, v)
+	cur := blk
+	for i := 0; i < 8 && len(cur.Preds) == 1; i++ {
+		p := cur.Preds[0]
+		for k, s := range p.Succs {
+			if s == cur {
+				// an edge that is both (p branches to cur twice) proves nothing
+				if nonNil(p, k) && !isNil(p, k) {
+					return 1
+				}
+				if isNil(p, k) && !nonNil(p, k) {
+					return -1
+				}
+			}
+		}
+		cur = p
+	}
+	return 0
+}
+
+// predIndex: the index of edge from->to among to.Preds when to branches on its own phi and
+// the edge is unambiguous; -1 otherwise.
+func predIndex(from, to *ssa.BasicBlock) int {
+	if p, _ := phiCondOf(to); p == nil {
+		return -1
+	}
+	idx := -1
+	for i, q := range to.Preds {
+		if q == from {
+			if idx >= 0 {
+				return -1
+			}
+			idx = i
+		}
+	}
+	return idx
 }
 
 // Run returns the sites reachable in state "not held", each with one witness path.
@@ -85,12 +233,12 @@ func (q Query) Run() []Witness {
 	}
 	var queue []work
 	if q.Start != nil {
-		queue = append(queue, work{pstate{q.Start.Block(), q.StartHeld}, instrIndex(q.Start) + 1})
+		queue = append(queue, work{pstate{q.Start.Block(), q.StartHeld, -1}, instrIndex(q.Start) + 1})
 	} else {
 		if len(q.Fn.Blocks) == 0 {
 			return nil
 		}
-		queue = append(queue, work{pstate{q.Fn.Blocks[0], q.StartHeld}, 0})
+		queue = append(queue, work{pstate{q.Fn.Blocks[0], q.StartHeld, -1}, 0})
 	}
 	for len(queue) > 0 {
 		w := queue[0]
@@ -129,6 +277,9 @@ func (q Query) Run() []Witness {
 			if q.SkipEdge != nil && q.SkipEdge(s.b, k) {
 				continue
 			}
+			if infeasibleSucc(s.b, s.pred, k) {
+				continue
+			}
 			h := held
 			if q.GenEdge != nil && q.GenEdge(s.b, k) {
 				h = true
@@ -136,7 +287,7 @@ func (q Query) Run() []Witness {
 			if q.KillEdge != nil && q.KillEdge(s.b, k) {
 				h = false
 			}
-			n := pstate{succ, h}
+			n := pstate{succ, h, predIndex(s.b, succ)}
 			if !visited[n] {
 				if _, ok := prev[n]; !ok {
 					prev[n] = s
@@ -197,7 +348,16 @@ func callMatches(in ssa.Instruction, name string) bool {
 	if f == nil {
 		return false
 	}
-	return FnName(f) == name
+	if FnName(f) == name {
+		return true
+	}
+	// a direct call of what the baseline wrapper `name` forwards to, in the wrapper's shape
+	if ws := baselineWrappers[short(f.String())]; len(ws) > 0 && in.Parent() != nil {
+		if w, _, ok := asBaselineWrapper(NewRenderer(in.Parent()), cc); ok && w == name {
+			return true
+		}
+	}
+	return false
 }
 
 func isPlainCall(in ssa.Instruction) bool {
